@@ -286,6 +286,9 @@ def _ba_oracle(args, run=None):
     if len(wins) > 40:
         wins = wins[:: max(1, len(wins) // 12)]
     wins.append((slice(None), slice(None)))
+    for L in (*pre, *post):
+        # Y/X windows whose extent coincides with the length of a NON-spatial axis (they must still mean rows / columns)
+        wins += [(slice(0, min(L, ny)), slice(None)), (slice(0, min(L, ny)), slice(0, min(ny, nx))), (slice(None), slice(0, min(L, nx)))]
     for w in wins:
         got = ba.extract(fill, roi=w)
         sl = (*(slice(None) for _ in (pre if present else ())), *w, *(slice(None) for _ in (post if present else ())))
